@@ -80,4 +80,36 @@ AfterValidate(f, dest, nmapped, rewrite) ==
                rec |-> IF change THEN nmapped
                        ELSE IF f.rec # None3 THEN f.rec
                        ELSE IF dest = "valid_path" THEN nmapped ELSE None3]]
+
+\* ------------------------------------------------------------------ 4. the ABC statistics runner (cli/precompute_stats_abc.py)
+\* With split_by_dataset and a dataset_label column one statistics file is written per dataset label,
+\* <stem>.<label with " " -> "_" and "/" -> "."><suffix>, plus <stem>.combined<suffix> holding their merge (see below); otherwise
+\* one file at output_path.  Refused: two labels with one file name; a dataset called "combined" (its file would be the
+\* merged one); an existing target without clobber.  A label is a sequence of characters.
+SanChar(c) == IF c = " " THEN "_" ELSE IF c = "/" THEN "." ELSE c
+San(l) == [i \in 1..Len(l) |-> SanChar(l[i])]
+Combined == <<"c", "o", "m", "b", "i", "n", "e", "d">>
+DatasetOutcome(labels) ==
+    IF \E a, b \in labels : a # b /\ San(a) = San(b) THEN "refused"
+    ELSE IF Combined \in labels THEN "refused"
+    ELSE IF \E a \in labels : San(a) = Combined THEN "refused"      \* its file name is the merged file's
+    ELSE "ok"
+\* the files of an accepted call: one per label and the merged one
+DatasetFiles(labels) == [l \in labels |-> San(l)]
+\* The merged file (merge_precompute_files) does NOT add the datasets up: every cluster keeps the row of the ONE file in
+\* which it has the most cells.  files : sequence in path order of [total, n : cluster -> cells].  The file with the
+\* largest total (first such) is the base; the others, in order, replace a cluster's row only where they hold strictly
+\* more cells than the row held so far.
+BaseOf(files) == CHOOSE i \in 1..Len(files) :
+                    /\ \A j \in 1..Len(files) : files[j].total <= files[i].total
+                    /\ \A j \in 1..(i - 1) : files[j].total < files[i].total
+RECURSIVE PickFrom(_, _, _, _, _)
+\* cur : index of the file whose row the cluster holds so far
+PickFrom(files, c, base, i, cur) ==
+    IF i > Len(files) THEN cur
+    ELSE IF i # base /\ files[i].n[c] > files[cur].n[c] THEN PickFrom(files, c, base, i + 1, i)
+    ELSE PickFrom(files, c, base, i + 1, cur)
+Picked(files, c) == PickFrom(files, c, BaseOf(files), 1, BaseOf(files))
+\* what a user relies on: the merged row is a row of a file with the maximal number of cells of that cluster
+PickIsMax(files, c) == \A j \in 1..Len(files) : files[j].n[c] <= files[Picked(files, c)].n[c]
 =============================================================================
